@@ -21,7 +21,7 @@ EXPLANATION = (
     "collect/collect_to_writer/can_collect/read choose full drain iff the frame is finished, else the "
     "window-retaining routine, which offers len - window_size only when len > window_size. "
     "Not decided: equality of streams across all schedules (runtime values).")
-ASSUMPTIONS = ["Drop of the guard runs on every exit (Rust semantics)",
+ASSUMPTIONS = ["Drop of the guard runs on every exit (Rust semantics)", "C06.window.* are C04's rule instances (the output window is a byte queue)",
                "counter changes made by callees of decode_from_to (init) are not summed (the early return sits before them in no path)"]
 
 DB = c07.DB
@@ -284,6 +284,17 @@ def run(ctx):
         ctx.check("RingBuffer::len(self.buffer)" in s and "min(" in s and "len($0)" in s, RS, "DecodeBuffer::read_all::amount", H.loc(b, c),
                   "read_all drains min(len, target.len())", observed=s)
     ctx.guard(RS, "select", select)
+
+    # every way of taking output reads through the output window: that it behaves as a byte queue whatever the
+    # interleaving of appends and drains (positions wrap at the allocation's end, never rest on it; lengths and
+    # segments computed from them) is a necessary condition of this property.  Same rule instances as C04.
+    from . import c04
+    start = len(ctx.obs)
+    c04.run(ctx)
+    for o in ctx.obs[start:]:
+        if o.rule.startswith("C04."):
+            o.rule = "C06.window." + o.rule.split(".", 1)[1]
+    ctx.floor("C06.window", len(ctx.obs) - start, 60, "output window obligations (shared with C04)")
 
 
 def _lid(body, name):
